@@ -272,6 +272,34 @@ func GenViewBox(t *tape.Tape) ivg.ViewBox {
 	}
 }
 
+// OffViewBox draws a viewBox whose bounds are off the 1/64 lattice: the
+// format carries them in the 4-byte form (two mantissa bits dropped), never
+// quantised to 1/64. Spans go from a tenth of a unit (normalised artwork,
+// the case for high-resolution coordinates) to icon size.
+func OffViewBox(t *tape.Tape) ivg.ViewBox {
+	bound := func() float32 {
+		return float32(t.Range(-6400, 6400))/64 + float32(1+t.Intn(1<<14))/(1<<20)
+	}
+	span := func() float32 {
+		switch t.Pick(2, 2, 1) {
+		case 0:
+			return float32(100+t.Intn(900)) / 1000 / float32(int(1)<<uint(t.Intn(4)))
+		case 1:
+			return float32(1+t.Intn(4096))/64 + float32(1+t.Intn(1<<14))/(1<<20)
+		}
+		return float32(8+t.Intn(56)) + 1.0/3
+	}
+	x0, y0 := bound(), bound()
+	if t.Chance(1, 3) {
+		x0, y0 = float32(t.Intn(1<<14))/(1<<20), 0
+	}
+	vb := ivg.ViewBox{MinX: x0, MinY: y0, MaxX: x0 + span(), MaxY: y0 + span()}
+	if !(vb.MaxX > vb.MinX) || !(vb.MaxY > vb.MinY) {
+		return ivg.ViewBox{MinX: 0, MinY: 0, MaxX: 0.1, MaxY: 0.3}
+	}
+	return vb
+}
+
 // GenCfg steers the program generator; the zero value gives plain programs
 // over the 30 Destination methods.
 type GenCfg struct {
@@ -780,7 +808,11 @@ func GenProgram(t *tape.Tape, cfg GenCfg) []Op {
 		g.wGrad++
 	}
 	if !cfg.NoReset && (cfg.ForceReset || t.Chance(3, 4)) {
-		g.emit(Op{K: KReset, VB: GenViewBox(t), Pal: GenPalette(t)})
+		vb := GenViewBox(t)
+		if cfg.OffLattice && t.Bool() {
+			vb = OffViewBox(t)
+		}
+		g.emit(Op{K: KReset, VB: vb, Pal: GenPalette(t)})
 	}
 	max := cfg.MaxItems
 	if max == 0 {
